@@ -1169,7 +1169,12 @@ let from_ordinal_padded iv ulength pad =
                  then CText (app pads (cp :: []))
                  else CUnicodeDecodeError
   else if Z.leb iv (Zpos (XI (XI (XI (XI (XI (XI XH)))))))
-       then if Z.ltb iv Z0 then CAbort else CText (app pads (iv :: []))
+       then let c =
+              Z.modulo iv (Zpos (XO (XO (XO (XO (XO (XO (XO (XO XH)))))))))
+            in
+            if Z.ltb (Zpos (XI (XI (XI (XI (XI (XI XH))))))) c
+            then CAbort
+            else CText (app pads (c :: []))
        else (match from_ordinal iv with
              | CText l -> CText (app pads l)
              | x -> x)
